@@ -156,13 +156,36 @@ class Transport(object):
         return self
 
 
+class _PendingSocket(object):
+    def __init__(self, reactor):
+        self.reactor = reactor
+
+    def setsockopt(self, level, opt, value):
+        # the kernel may refuse a TCP-MD5 key (EINVAL for a key longer than 80 octets)
+        if getattr(self.reactor, 'md5_refused', False):
+            raise OSError(22, 'Invalid argument')
+        self.reactor.sockopts.append((level, opt, value))
+
+
+class _PendingClient(object):
+    """transport of a connector whose TCP handshake has not finished"""
+    connected = 0
+    disconnecting = 0
+
+    def __init__(self, reactor):
+        self._sock = _PendingSocket(reactor)
+
+    def getHandle(self):
+        return self._sock
+
+
 class Connector(object):
     def __init__(self, reactor, host, port, factory, timeout, bindAddress):
         self.reactor = reactor
         self.host, self.port, self.factory = host, port, factory
         self.timeout, self.bindAddress = timeout, bindAddress
         self.state = 'connecting'
-        self.transport = None
+        self.transport = _PendingClient(reactor)       # Twisted: the Client object exists as soon as connectTCP returns
         self.protocol = None
         self.created_at = reactor.now
 
@@ -232,6 +255,8 @@ class Reactor(object):
         self.lose_log = []
         self.aborted = []
         self.local_host = '10.0.0.1'
+        self.md5_refused = False
+        self.sockopts = []
         self.running = False
 
     def seconds(self):
